@@ -208,8 +208,15 @@ func VsymC11() {
 	var signer Signer
 	var sg *c11Signer
 	var pluginAnn map[string]string
-	if vr.Choice("signerKind", 2) == 1 {
+	if k := vr.Choice("signerKind", 4); k >= 1 {
 		pluginAnn = map[string]string{"plugin.note": "n"}
+		// a plugin that (also) uses the keys notation computes itself: the computed values must win
+		if k == 2 {
+			pluginAnn["io.cncf.notary.x509chain.thumbprint#S256"] = `["00"]`
+		}
+		if k == 3 {
+			pluginAnn["org.opencontainers.image.created"] = "1999-01-01T00:00:00Z"
+		}
 		ps := &c11PluginSigner{c11Signer: base, ann: pluginAnn}
 		sg, signer = &ps.c11Signer, ps
 	} else {
@@ -290,7 +297,12 @@ func VsymC11() {
 		vr.Assert(p.mediaType == c11JWS && string(p.blob) == "signature envelope", "the signature pushed is the signer's, under the requested media type")
 		vr.Assert(p.subject.MediaType == c11MT && string(p.subject.Digest) == c11DigestA && p.subject.Size == repo.stored.Size && c11SameMap(p.subjAnn, annK, annV),
 			"the signature is attached to the resolved artifact (its descriptor as resolved, without the user metadata)")
-		wantAnn := 2 + len(pluginAnn)
+		wantAnn := 2
+		for k := range pluginAnn {
+			if k != "io.cncf.notary.x509chain.thumbprint#S256" && k != "org.opencontainers.image.created" {
+				wantAnn++
+			}
+		}
 		vr.Assert(len(p.ann) == wantAnn, "the signature manifest carries the thumbprint and created annotations (plus the plugin's)")
 		vr.Assert(vr.JSONEqual([]byte(p.ann["io.cncf.notary.x509chain.thumbprint#S256"]), c11Thumbprints(chain)), "thumbprint annotation: SHA-256 of every certificate of the signing chain, in chain order")
 		vr.Assert(p.ann["org.opencontainers.image.created"] == signingTime.UTC().Format(time.RFC3339), "created annotation: the signing time")
